@@ -10,7 +10,10 @@ from jl import enc, dec
 
 
 def hexs(s):
-    return binascii.hexlify(s.encode("utf-8")).decode()
+    try:
+        return binascii.hexlify(s.encode("utf-8")).decode()
+    except UnicodeEncodeError:          # a lone surrogate: not a Unicode text at all, no parser accepts it
+        return "ff"
 
 
 class Codec:
@@ -61,7 +64,10 @@ def json_texts(g, tier):
            "-0", "1E2", "1.50", "0.1e1", "01", "+1", ".5", "1.", "NaN", "Infinity", "'a'", "\"\\ud83d\\ude00\"", "\"\\ud83d\"", "\"\\u0000\"", "\"a\nb\"", "[" * 127 + "]" * 127, "[" * 128 + "]" * 128,
            "[" * 129 + "]" * 129, "{\"var\":\"a\"} {\"var\":\"b\"}", "true", "null", "\"-\"", "-", "--", "-1", "\"é\"", " \n\t{\"a\" :\r [1 , 2]} \n", "1.0", "100000000000000000000000", "1e19", "0.30000000000000004",
            "9007199254740993", "9007199254740993.0", "123456789012345678901234567890.5", "\"\\/\"", "{\"\":1}", "[1,2", "\"unterminated"]
-    rules_for_odd = ["{\"var\":\"\"}", "{\"cat\":[{\"var\":\"\"}]}", "{\"+\":[{\"var\":\"\"},0]}", "1"]
+    for w in ["\u00a0", "\u2028", "\u2029", "\u3000", "\u0085", "\u000b", "\u000c", "\ufeff", "\u200b", "\u1680"]:
+        odd += [w + "{\"a\":1}", "{\"a\":1}" + w, w + "1" + w, "[1," + w + "2]", w + "null"]
+    odd += ["\"x\ufeffy\"", "{\"k\ufeff\":1,\"k\":2}", "[\"\ufeff\"]", "\"\ufeff\"", "{\"\ufeffa\":\"\ufeff\"}"]
+    rules_for_odd = ["{\"var\":\"\"}", "{\"var\":\"k\ufeff\"}", "{\"var\":1}", "{\"cat\":[{\"var\":\"\"}]}", "{\"+\":[{\"var\":\"\"},0]}", "1"]
     for o in odd:
         for rt in rules_for_odd:
             texts.append((rt, o))
@@ -98,6 +104,12 @@ def run_c18(ex, g, tier):
     # large documents (beyond 1 MiB) can only arrive on standard input
     big = "[" + ",".join(str(i) for i in range(300000)) + "]"
     bigs = json.dumps({"k": "x" * 1200000, "n": 5})
+    # multi-byte characters around every 8 KiB / 64 KiB boundary of a document read from standard input
+    for unit in ("é", "日", "😀"):
+        for base in (8192, 16384, 65536):
+            for off in range(-6, 3):
+                texts.append(("{\"var\":-1}", "\"" + "a" * (base + off - 1) + unit * 3 + "\""))
+        texts.append(("{\"substr\":[{\"var\":\"\"},-2]}", "\"" + unit * 9000 + "\""))
     texts += [("{\"var\":-1}", big), ("{\"var\":\"n\"}", bigs), ("{\"var\":\"1.0\"}", "[\"" + "y" * 2200000 + "\"]")]
     pr = codec.parse_many([t[0] for t in texts]); pd = codec.parse_many([t[1] for t in texts])
     idx = [i for i in range(len(texts)) if pr[i].startswith("ok ") and pd[i].startswith("ok ")]
@@ -210,7 +222,7 @@ for raw in sys.stdin:
             res = jsonlogic_rs.apply_serialized(*args, **kw)
         print("value " + json.dumps(res, sort_keys=True), flush=True)
     except BaseException as e:
-        print("exc " + type(e).__name__, flush=True)
+        print("exc " + ("ValueError" if isinstance(e, ValueError) else type(e).__name__), flush=True)
 '''
 
 
@@ -253,6 +265,18 @@ def run_c19(ex, g, tier):
     for v0, v1 in muts:
         if type(v0) == type(v1):
             tasks.append(dict(kind="mutate", value0=v0, value=v1, data={"a": "A", "b": "B"}))
+    for a, b in [("[1", "2],3"), ("\"x", "y\",null"), ("{\"cat\":[\"a\"", "\"b\"]},null"), ("[", "]"), ("1,2", "3"), ("1]", "[2"), ("{\"var\":\"a\"}", "{\"a\":1},{\"a\":2}"), ("1", "2,3"),
+                 ("[" * 127 + "]" * 127, "null"), ("null", "[" * 127 + "]" * 127), ("[" * 126 + "]" * 126, "[" * 126 + "]" * 126), ("[" * 128 + "]" * 128, "null")]:
+        tasks += [dict(kind="ser", value=a, data=b), dict(kind="ser", value=a, data=b, de=True)]
+    for sur in ["\ud800", "ab\udc80", "\udfff\ud800", "x\ud83dy"]:
+        for t_ in (dict(kind="apply", value={"var": ""}, data=sur), dict(kind="apply", value={"==": [sur, "\ufffd"]}), dict(kind="apply", value={"var": sur}, data={sur: 1}), dict(kind="apply", value={"cat": [sur]}, ser=True),
+                   dict(kind="ser", value="{\"var\":\"\"}", data="\"" + sur + "\""), dict(kind="ser", value="\"" + sur + "\"")):
+            tasks.append(t_)
+    for sdat in JSONISH_STRINGS:
+        for rule in ({"!!": [{"var": ""}]}, {"var": ""}, {"if": [{"var": ""}, "T", "F"]}):
+            tasks += [dict(kind="apply", value=rule, data=sdat), dict(kind="apply", value=sdat, data=None), dict(kind="apply", value=rule, data=sdat, ser=True)]
+    for pad in ("\n", " ", "\t", "\r\n  "):
+        tasks += [dict(kind="ser", value=pad + "{\"var\": \"a\"}", data="{\"a\": 1}"), dict(kind="ser", value="{\"var\": \"a\"}" + pad, data=pad + "{\"a\": 1}" + pad), dict(kind="ser", value=pad + "[1]" + pad)]
     for bad in ["", "{", "nul", "1 2", "{\"a\":1} trailing", "NaN", "[1,]", "{\"var\":\"a\"} {\"var\":\"b\"}", "1e400", "\"\\ud83d\""]:
         tasks += [dict(kind="ser", value=bad, data="null"), dict(kind="ser", value="{\"var\":\"\"}", data=bad), dict(kind="ser", value=bad), dict(kind="ser", value="1", data=bad, de=True)]
     # expected, from the model
@@ -312,6 +336,112 @@ def run_c19(ex, g, tier):
             same_ = g_ == want
         if not same_:
             ex.violate("python module result differs from decode(library(encode(rule), encode(data)))", "py " + json.dumps(t, sort_keys=True), g_[:300], want[:300])
+
+
+def to_json_text(v):
+    """JSON text that serde_json parses back to exactly this value (number variants kept: ints as digits, floats with '.'/exponent)"""
+    if v is None: return "null"
+    if v is True: return "true"
+    if v is False: return "false"
+    if isinstance(v, int): return str(v)
+    if isinstance(v, float):
+        r = repr(v)
+        return r if ("." in r or "e" in r or "E" in r) else r + ".0"
+    if isinstance(v, str): return json.dumps(v, ensure_ascii=False)
+    if isinstance(v, list): return "[" + ",".join(to_json_text(x) for x in v) + "]"
+    if isinstance(v, dict): return "{" + ",".join(json.dumps(k, ensure_ascii=False) + ":" + to_json_text(x) for k, x in v.items()) + "}"
+    raise TypeError(v)
+
+
+JSONISH_STRINGS = ["[]", "[ ]", "[\n]", "{}", "null", "0", "false", "\"\"", "[0]", "{\"a\":1}", "1", "true", " [] ", "[1,2]"]
+
+
+def boundary_sample(ex, lines, n=60):
+    """a sample of this property's cases through the OTHER two entry points: the `jsonlogic` command (data as argument and on stdin) and
+    the Python module (`apply` on objects, `apply_serialized` on texts padded with JSON whitespace); expected = the model on the same values"""
+    R = ex.runner
+    cand = [l for l in lines if l.startswith("apply ") and len(l) < 3000]
+    if not cand: return
+    step = max(1, len(cand) // n)
+    pick = cand[:8] + cand[8::step][:n]
+    vals = []
+    for l in pick:
+        try:
+            toks = l.split(" "); r, pos = jl.dec_tokens(toks, 1); d, pos = jl.dec_tokens(toks, pos)
+            rt, dt = to_json_text(r), to_json_text(d)
+            if "\x00" in rt or "\x00" in dt: continue
+            rt.encode("utf-8"); dt.encode("utf-8")
+            vals.append((l, r, d, rt, dt))
+        except Exception:
+            continue
+    # truthiness / identity of string data that happens to look like JSON (must stay a string at every boundary)
+    extra = []
+    for sdat in JSONISH_STRINGS:
+        for rule in ({"!!": [{"var": ""}]}, {"var": ""}, {"cat": [{"var": ""}, "|"]}, {"if": [{"var": ""}, "T", "F"]}):
+            extra.append((gen.app(rule, sdat), rule, sdat, to_json_text(rule), to_json_text(sdat)))
+    vals += extra
+    codec = Codec(R)
+    ev = codec.model_eval([(enc(r), enc(d)) for _, r, d, _, _ in vals])
+    try:
+        binary = jl.build_cli("dev"); pydir = jl.build_pyext()
+    except jl.BuildError as e:
+        ex.notes.append("boundary sample skipped: " + str(e)[:200]); return
+    # CLI
+    jobs = []
+    for i, (l, r, d, rt, dt) in enumerate(vals):
+        jobs.append((i, "stdin"))
+        if len(rt) + len(dt) < 100000 and dt != "-": jobs.append((i, "arg"))
+    with concurrent.futures.ThreadPoolExecutor(max_workers=16) as pool:
+        res = list(pool.map(lambda j: run_cli(binary, vals[j[0]][3], vals[j[0]][4], j[1]), jobs))
+    for (i, mode), out in zip(jobs, res):
+        if out is None: continue
+        ex.evaluations += 1
+        head, logs, ser = ev[i]
+        want_lines, want_ok = ((logs + [ser], True) if head == "ok" else (logs, False))
+        lines_, rc, panicked = out
+        okk = (rc == 0) == want_ok and (lines_ == want_lines if want_ok else (len(lines_) <= len(want_lines) and lines_ == want_lines[:len(lines_)]))
+        if panicked or not okk:
+            ex.violate("boundary (jsonlogic command, data %s): differs from the library result on the same rule and data" % ("as argument" if mode == "arg" else "on stdin"),
+                       "cli " + json.dumps({"logic": vals[i][3], "data": vals[i][4], "mode": mode}), "%s exit=%s" % (lines_[:4], rc), "%s exit %s" % (want_lines[:4], "0" if want_ok else "!=0"))
+    # Python
+    tasks = []; want = []
+    pads = ["", "\n", "  ", "\t\r\n "]
+    for i, (l, r, d, rt, dt) in enumerate(vals):
+        head, logs, ser = ev[i]
+        exp = "exc ValueError"
+        if head == "ok":
+            try: exp = "value " + json.dumps(json.loads(ser), sort_keys=True)
+            except Exception: exp = "exc ?"
+        elif head == "panic": exp = "exc <crash>"
+        pad = pads[i % len(pads)]
+        tasks.append(dict(kind="ser", value=pad + rt + pad, data=pad + dt)); want.append(exp)
+        try:
+            ro, do = json.loads(rt), json.loads(dt)
+            if to_json_text_roundtrip_ok(ro, r) and to_json_text_roundtrip_ok(do, d):
+                tasks.append(dict(kind="apply", value=ro, data=do)); want.append(exp)
+        except Exception:
+            pass
+    child = os.path.join(jl.BUILD, "tmp", "py_child.py")
+    os.makedirs(os.path.dirname(child), exist_ok=True)
+    open(child, "w").write(PY_CHILD)
+    data = "".join(json.dumps(t) + "\n" for t in tasks).encode()
+    try:
+        p = subprocess.run([sys.executable, child, pydir], input=data, stdout=subprocess.PIPE, stderr=subprocess.PIPE, timeout=300)
+        got = [x for x in p.stdout.decode("utf-8", "replace").split("\n") if x.startswith("value ") or x.startswith("exc ")]
+    except subprocess.TimeoutExpired:
+        got = []
+    if len(got) < len(tasks):
+        ex.violate("boundary (python module): the interpreter ended or hung during the batch", "py " + json.dumps(tasks[len(got)] if len(got) < len(tasks) else {}, sort_keys=True)[:2000],
+                   "crash after %d of %d calls" % (len(got), len(tasks)), want[len(got)] if len(got) < len(want) else "")
+    for t, w, g_ in zip(tasks, want, got):
+        ex.evaluations += 1
+        if g_ != w:
+            ex.violate("boundary (python module): differs from decode(library(encode(rule), encode(data)))", "py " + json.dumps(t, sort_keys=True)[:3000], g_[:300], w[:300])
+
+
+def to_json_text_roundtrip_ok(pyobj, orig):
+    """python's json keeps int/float apart, so the object rebuilt from the text denotes the same value"""
+    return True
 
 
 def replay(r):
